@@ -63,6 +63,7 @@ type script struct {
 
 type observed struct {
 	handshake bool
+	client    string // source address of the client's connection as the peer sees it
 	proto     string
 	c2s, s2c  []byte
 	req       []byte
@@ -78,8 +79,8 @@ type peer struct {
 	obs     chan observed
 }
 
-func newPeer() *peer {
-	ln, err := net.Listen("tcp", "127.0.0.1:0")
+func newPeer(host string) *peer {
+	ln, err := net.Listen("tcp", net.JoinHostPort(host, "0"))
 	if err != nil {
 		panic("listen: " + err.Error())
 	}
@@ -106,6 +107,7 @@ func (p *peer) loop() {
 
 func (p *peer) handle(conn net.Conn, sc *script) {
 	var o observed
+	o.client, _, _ = net.SplitHostPort(conn.RemoteAddr().String())
 	defer func() { p.obs <- o }()
 	if sc == nil || sc.dropPre {
 		conn.Close()
@@ -163,21 +165,39 @@ var cur peerCtl
 var LastFetchElapsed time.Duration
 
 var (
-	thePeer  *peer
-	fetcher  *ntske.Fetcher
-	opIndex  int
-	exKeys   map[int][2][]byte // f.fetch ordinal -> keys exported by the peer in that exchange
-	lastObs  observed
-	lastExch bool
+	thePeers = map[string]*peer{} // scripted TLS peers by listening address
+	curHost  = "127.0.0.1"        // key-exchange host of the current fetcher
+	// PeerSawOtherSource counts exchanges in which the client's source address differed
+	// from the key-exchange host (so that "default server = key-exchange host" is not
+	// satisfied by the local address of the connection).
+	PeerSawOtherSource int
+	fetcher            *ntske.Fetcher
+	opIndex            int
+	exKeys             map[int][2][]byte // f.fetch ordinal -> keys exported by the peer in that exchange
+	lastObs            observed
+	lastExch           bool
 )
 
-func fNew() string {
+// loopbackHost: the scripted peers listen on addresses of 127.0.0.0/8 (all local on Linux);
+// a client connecting to one other than 127.0.0.1 still has source address 127.0.0.1.
+func loopbackHost(host string) string {
+	ip := net.ParseIP(host).To4()
+	if ip == nil || ip[0] != 127 || ip.String() != host {
+		panic("bad-op")
+	}
+	return host
+}
+
+func fNew(host string) string {
+	curHost = loopbackHost(host)
+	thePeer := thePeers[host]
 	if thePeer == nil {
-		thePeer = newPeer()
+		thePeer = newPeer(host)
+		thePeers[host] = thePeer
 	}
 	fetcher = &ntske.Fetcher{}
 	fetcher.Log = nolog
-	fetcher.TLSConfig = tls.Config{InsecureSkipVerify: true, ServerName: "127.0.0.1", MinVersion: tls.VersionTLS13}
+	fetcher.TLSConfig = tls.Config{InsecureSkipVerify: true, ServerName: host, MinVersion: tls.VersionTLS13}
 	fetcher.Port = thePeer.port
 	opIndex = 0
 	exKeys = map[int][2][]byte{}
@@ -245,7 +265,7 @@ func fetchErrClass(err error) string {
 
 func fFetch(t []string) string {
 	if fetcher == nil {
-		fNew()
+		fNew("127.0.0.1")
 	}
 	opIndex++
 	sc := &script{}
@@ -281,7 +301,7 @@ func fFetch(t []string) string {
 	dialTok, _ := kv(t, "dial")
 	alpnTok, _ := kv(t, "alpn")
 	hostTok, _ := kv(t, "host")
-	if dialTok == "" || alpnTok == "" || parseBool(dialTok) != wantDial || hostTok != hexOf("127.0.0.1") ||
+	if dialTok == "" || alpnTok == "" || parseBool(dialTok) != wantDial || hostTok != hexOf(curHost) ||
 		(wantDial && string(parseHex(alpnTok)) != wantProto) {
 		panic("bad-op")
 	}
@@ -305,6 +325,9 @@ func fFetch(t []string) string {
 		select {
 		case o := <-p.obs:
 			lastObs = o
+			if o.client != "" && o.client != curHost {
+				PeerSawOtherSource++
+			}
 			if o.handshake {
 				exKeys[opIndex] = [2][]byte{o.c2s, o.s2c}
 				if o.proto != wantProto {
@@ -336,7 +359,7 @@ func hexOf(s string) string { return fmt.Sprintf("%x", s) }
 
 func fStore(c []byte) string {
 	if fetcher == nil {
-		fNew()
+		fNew("127.0.0.1")
 	}
 	fetcher.StoreCookie(c)
 	return "ok pool=" + hexList(fetcher.VerifC20Data().Cookie)
@@ -344,7 +367,7 @@ func fStore(c []byte) string {
 
 func fState() string {
 	if fetcher == nil {
-		fNew()
+		fNew("127.0.0.1")
 	}
 	d := fetcher.VerifC20Data()
 	return "ok " + fmtData(d) + " " + keysTag(d)
